@@ -53,7 +53,7 @@ theorem rel_other_manifests {p : PState} (h : Rel p) (ms : List (Nat × List Edi
   obtain ⟨es, hes, hw, hv⟩ := h.edits
   exact { inv := h.inv, wf := ⟨hnd, h.wf.2.1, h.wf.2.2⟩, cur := h.cur,
           edits := ⟨es, hsame.trans hes, hw, hv⟩, tables := h.tables, walMem := h.walMem,
-          walImm := h.walImm, others := h.others, walMax := h.walMax }
+          walImm := h.walImm, others := h.others, walMax := h.walMax, manLe := h.manLe }
 
 theorem switch_ok {p : PState} (h : Rel p) (m' : Nat) (hfresh : ∀ x ∈ p.d.manifests, x.1 < m') :
     StepOk p { s := p.s, d := (opsOf p (.switchManifest m')).foldl apply p.d,
@@ -68,7 +68,7 @@ theorem switch_ok {p : PState} (h : Rel p) (m' : Nat) (hfresh : ∀ x ∈ p.d.ma
     obtain ⟨x, hx, hxm⟩ := List.mem_map.mp hm
     have := hfresh x hx
     omega
-  let snap : Edit := { walNumber := some p.c.w0, added := levelPairs p.s.levels, deleted := [] }
+  let snap : Edit := { walNumber := some p.c.manWal, added := levelPairs p.s.levels, deleted := [] }
   -- 1. the empty new manifest
   have hok1 : ok p.d (.createManifest m') = true := by
     simp only [ok, h.cur, bne_iff_ne, ne_eq, Option.some.injEq]; exact hmm
@@ -98,9 +98,10 @@ theorem switch_ok {p : PState} (h : Rel p) (m' : Nat) (hfresh : ∀ x ∈ p.d.ma
   have hR3 : Rel { s := p.s, d := { p.d with manifests := ms2, current := some m' },
                    c := { p.c with manifest := m' } } := by
     refine { inv := h.inv, wf := ⟨hnd2, h.wf.2.1, h.wf.2.2⟩, cur := rfl, edits := ?_, tables := h.tables,
-             walMem := h.walMem, walImm := h.walImm, others := h.others, walMax := h.walMax }
+             walMem := h.walMem, walImm := h.walImm, others := h.others, walMax := h.walMax,
+             manLe := h.manLe }
     refine ⟨[snap], hl2, ?_, ?_⟩
-    · simp [walNoOf, snap, Ctx.w0]
+    · simp [walNoOf, snap]
     · intro q
       simp only [versionOf, List.foldl_cons, List.foldl_nil, List.filter_nil, List.nil_append, snap]
       exact mem_levelPairs p.s.levels q
